@@ -143,6 +143,8 @@ type Sess struct {
 	mapIters map[*ssa.Range]*mapIter
 	absStr bool
 	epochTop map[string]string
+	privCells *[]*ssa.Alloc
+	inlineSites []ssa.CallInstruction
 	epochPrev map[string][]epochPred // the states a heap epoch was started from
 	axioms []string
 	edgeDead map[[2]int]bool // path mode: edges (from,to block index) not on the path
@@ -932,6 +934,7 @@ func (s *Sess) run() {
 	s.inlined = map[string]bool{}
 	s.mapIters = map[*ssa.Range]*mapIter{}
 	s.epochTop = map[string]string{}
+	s.privCells = nil
 	s.epochPrev = map[string][]epochPred{}
 	s.tc = newTypeCtx(s.emitDecl)
 	s.emitDecl("(declare-const top0 Int)")
@@ -992,6 +995,34 @@ func (s *Sess) run() {
 		for _, b := range fn.FreeVars[i+1:] {
 			if types.Identical(a.Type(), b.Type()) {
 				s.assume(fmt.Sprintf("(distinct %s %s)", s.env[a].t, s.env[b].t))
+			}
+		}
+	}
+	// A closure sees the variables it captured in a visible state: the type invariant of a captured
+	// value holds on entry (it is an obligation where the closure is made, see MakeClosure).
+	if fn.Parent() != nil {
+		for _, p := range fn.FreeVars {
+			pt, ok := p.Type().(*types.Pointer)
+			if !ok {
+				continue
+			}
+			invs := s.eng.typeInvsFor(pt.Elem())
+			if len(invs) == 0 {
+				continue
+			}
+			capName := "$cap." + p.Name()
+			s.paramVals[capName] = Val{t: s.load(entry, s.env[p], pt.Elem()), typ: pt.Elem()}
+			for _, ti := range invs {
+				if ti.C.E == nil {
+					continue
+				}
+				ce := s.funcEnv(entry, entry, nil)
+				v, err := ce.evalAssume(renameIdent(ti.C.E, "$recv", capName))
+				if err != nil {
+					s.detached("captured %s: type invariant %q: %v", p.Name(), ti.C.Src, err)
+					continue
+				}
+				s.assume(v)
 			}
 		}
 	}
@@ -1158,6 +1189,8 @@ func (s *Sess) assignOrdinals() {
 				}
 			case *ssa.MapUpdate:
 				k = "mapw"
+			case *ssa.MakeClosure:
+				k = "mkclo"
 			case *ssa.FieldAddr, *ssa.UnOp, *ssa.Store:
 				k = "nil"
 			case *ssa.Convert:
